@@ -249,6 +249,58 @@ def oracle(which, existing, reqs, res, final):
     return None
 
 
+def section_level_drops(ck):
+    import random as _r
+    import authoring as A
+    import c11
+    import scenarios as SC
+    out = []
+    bases = [(n_, b) for n_, b in SC.fixtures() if "scx" in n_][:1] + \
+            [("synthetic", SC.MapGen(_r.Random(17), "editor", nloc=255, all_sections=True, ntrig=1).build())]
+    for label, base in bases:
+        vb = SC.SpecView(base)
+        free = {"locs": [i + 1 for i, l in enumerate(vb.locs) if not any(l.values()) and i + 1 != 64],
+                "cuwps": [i + 1 for i, c in enumerate(vb.cuwps or []) if not any(c.values())],
+                "switches": [k for k in range(256) if not (vb.swnm and vb.swnm[k])]}
+        for pick in (None, 0, -1):
+            for referenced in (False, True):
+                for kind in ("locs", "cuwps", "switches"):
+                    if pick is not None and not free[kind]:
+                        continue
+                    idx = None if pick is None else free[kind][pick]      # a slot the base map leaves free
+                    pool = {"locs": [[1, 1, 2, 2, None, None, [True] * 6]], "switches": [], "cuwps": []}
+                    if kind == "locs":
+                        pool["locs"].append([3111, 3222, 3333, 3444, "sec loc", idx, [True] * 6])
+                        put, acts = {"locs": [1]}, c11._loc_acts([1])
+                    elif kind == "cuwps":
+                        pool["cuwps"].append([91, 82, 73, 6464, 5, [False] * 5, [True] * 5 + [False], [True] * 6 + [False], False, 0, idx])
+                        put, acts = {"cuwps": [0]}, c11._cuwp_acts([0])
+                    else:
+                        pool["switches"].append(["sec switch", idx])
+                        put, acts = {"switches": [0]}, c11._switch_acts([0])
+                    spec = {"pool": pool, "ops": [["put_in_sections", put]] + ([c11._trigs(acts)] if referenced else [])}
+                    r = A.run_impl(base, spec)
+                    ck.evaluations += 1
+                    ck.note_case(f"section-drop:{label}:{kind}:{idx}:{referenced}")
+                    if r[0] == 0:
+                        continue
+                    v = SC.SpecView(bytes(r[1]))
+                    if kind == "locs":
+                        present = any(l["_left_x1"] == 3111 and l["_bottom_y2"] == 3444 for l in v.locs)
+                    elif kind == "cuwps":
+                        present = any(c["_hitpoints_percentage"] == 91 and c["_resource_amount"] == 6464 for c in (v.cuwps or []))
+                    else:
+                        present = any(v.switch(k)[1] == "sec switch" for k in range(256))
+                    # an unreferenced, unnamed-index switch / an unreferenced index-less object has no slot to claim: the
+                    # only acceptable outcomes are "present" or "raised"
+                    if not present:
+                        out.append((f"{label}: a {kind[:-1]} put into its rich section (index {idx}, "
+                                    f"{'used' if referenced else 'not used'} by a trigger) is missing from the saved map and "
+                                    f"nothing was raised",
+                                    {"kind": "section-drop", "label": label, "base_hex": base.hex(), "spec": spec}))
+    return out
+
+
 def model_line(which, existing, reqs):
     def rq(r):
         return "(1 %d)" % r[1] if r[0] == "carry" else ("(2)" if r[0] == "skip" else "(0)")
@@ -316,6 +368,10 @@ def run(ck: vlib.Check):
                                                    "requests": [list(r) for r in reqs], "result": res}, True)
             break
     ck.extra["cases_per_table"] = dist
+    # objects placed straight into a rich section (not through an editor), with or without an index, referred to by
+    # a trigger or not: each must be in the saved file, or the save must raise - never vanish
+    for bad in section_level_drops(ck):
+        ck.violation(bad[0], bad[1], True)
     if drv_ok:
         got = vlib.run_model(PROP, lines)
         got = [g if g.startswith("(1 ") else "(0)" for g in got]
@@ -335,6 +391,11 @@ def run(ck: vlib.Check):
 def replay(path: str) -> int:
     rp = json.loads(Path(path).read_text())
     print("replaying:", rp.get("what"))
+    if rp.get("kind") == "section-drop":
+        import authoring as A
+        r = A.run_impl(bytes.fromhex(rp["base_hex"]), rp["spec"])
+        print("the call still succeeds; inspect the output" if r[0] == 1 else "no longer failing (raises)")
+        return 1 if r[0] == 1 else 0
     if rp.get("kind") == "alloc":
         M = imports()
         reqs = [tuple(r) for r in rp["requests"]]
